@@ -75,7 +75,16 @@ type PrintCtx struct {
 func (s *PrintCtx) source() *Source { return s.cachedSource.Extract(s.stackFrame) }
 
 func (s *PrintCtx) setentry(e *Entry) {
+	// a pooled context must not remember anything of the record it
+	// formatted before: contents, read position, colours, grouping state
 	s.buf = s.buf[:0]
+	s.off = 0
+	s.lastRead = opInvalid
+	s.clr, s.bg = clrBasic, clrNone
+	s.prefix = ""
+	s.inGroupedMode = false
+	s.skipFirstSep = false
+	s.firstLine, s.restLines, s.eol = "", "", false
 
 	s.jsonMode = e.useJSON
 	useColor := e.useColor
